@@ -57,6 +57,45 @@ template<unsigned R, unsigned C> void mat_mat (Args& A, Out& O)
   O.put (m); O.put (w);
 }
 
+// the same with elements that carry their own copy semantics (Estimate: user-provided assignment, not trivially copyable):
+// Vector / Stokes / Matrix of Estimate, the scalar a reference to an own element or a distinct Estimate
+typedef Estimate<Rat> ER;
+static ER rdER (Args& A) { Rat v = A.rat(); Rat r = A.rat(); return ER (v, r); }
+template<unsigned N> void vecE_scalar (Args& A, Out& O)
+{
+  std::string op = A.next(); unsigned k = A.nat();
+  Vector<N,ER> v; for (unsigned i=0;i<N;i++) v[i] = rdER (A); Vector<N,ER> w = v;
+  ER extra = (k >= N) ? rdER (A) : ER ();
+  ER copy = (k >= N) ? extra : ER (v[k]);
+  if (op == "mul") { if (k >= N) v *= extra; else v *= v[k]; w *= copy; }
+  else if (op == "div") { if (k >= N) v /= extra; else v /= v[k]; w /= copy; }
+  else throw ProtocolError ("op");
+  for (unsigned i=0;i<N;i++) { O.put (Rat(v[i].val)); O.put (Rat(v[i].var)); } for (unsigned i=0;i<N;i++) { O.put (Rat(w[i].val)); O.put (Rat(w[i].var)); }
+}
+static void stokesE_scalar (Args& A, Out& O)
+{
+  std::string op = A.next(); unsigned k = A.nat();
+  Stokes<ER> v; for (unsigned i=0;i<4;i++) v[i] = rdER (A); Stokes<ER> w = v;
+  ER extra = (k >= 4) ? rdER (A) : ER ();
+  ER copy = (k >= 4) ? extra : ER (v[k]);
+  if (op == "mul") { if (k >= 4) v *= extra; else v *= v[k]; w *= copy; }
+  else if (op == "div") { if (k >= 4) v /= extra; else v /= v[k]; w /= copy; }
+  else throw ProtocolError ("op");
+  for (unsigned i=0;i<4;i++) { O.put (Rat(v[i].val)); O.put (Rat(v[i].var)); } for (unsigned i=0;i<4;i++) { O.put (Rat(w[i].val)); O.put (Rat(w[i].var)); }
+}
+static void matE_scalar (Args& A, Out& O)
+{
+  std::string op = A.next(); unsigned k = A.nat();
+  Matrix<2,2,ER> m; for (unsigned i=0;i<2;i++) for (unsigned j=0;j<2;j++) m[i][j] = rdER (A); Matrix<2,2,ER> w = m;
+  ER extra = (k >= 4) ? rdER (A) : ER ();
+  ER copy = (k >= 4) ? extra : ER (m[k/2][k%2]);
+  if (op == "mul") { if (k >= 4) m *= extra; else m *= m[k/2][k%2]; w *= copy; }
+  else if (op == "div") { if (k >= 4) m /= extra; else m /= m[k/2][k%2]; w /= copy; }
+  else throw ProtocolError ("op");
+  for (unsigned i=0;i<2;i++) for (unsigned j=0;j<2;j++) { O.put (Rat(m[i][j].val)); O.put (Rat(m[i][j].var)); }
+  for (unsigned i=0;i<2;i++) for (unsigned j=0;j<2;j++) { O.put (Rat(w[i][j].val)); O.put (Rat(w[i][j].var)); }
+}
+
 #define DISPATCH_N(fn) \
   switch (n) { case 1: fn<1>(A,O); break; case 2: fn<2>(A,O); break; case 3: fn<3>(A,O); break; \
     case 4: fn<4>(A,O); break; case 5: fn<5>(A,O); break; case 6: fn<6>(A,O); break; default: throw ProtocolError("N"); }
@@ -71,6 +110,9 @@ int main ()
   OpTable ops;
 
   OP("al.vec") { unsigned n = A.nat(); DISPATCH_N(vec_scalar) };
+  OP("o.c16.vecE") { unsigned n = A.nat(); switch (n) { case 2: vecE_scalar<2>(A,O); break; case 3: vecE_scalar<3>(A,O); break; case 4: vecE_scalar<4>(A,O); break; default: throw ProtocolError("N"); } };
+  OP("o.c16.stokesE") { stokesE_scalar (A, O); };
+  OP("o.c16.matE") { matE_scalar (A, O); };
   OP("al.vecvec") { unsigned n = A.nat(); DISPATCH_N(vec_vec) };
   OP("al.mat") { unsigned r = A.nat(); unsigned c = A.nat(); DISPATCH_RC(mat_scalar) };
   OP("al.matmat") { unsigned r = A.nat(); unsigned c = A.nat(); DISPATCH_RC(mat_mat) };
